@@ -20,7 +20,7 @@ import time
 from lib.vcommon import REPO, coq_list, coq_opt, coq_str, coq_z
 
 # g1/g01, dend_1/dend_01, x9y1/x09y1 are different ids with the SAME natural-sort key
-GROUP_NAMES = ["g01", "dend_01", "x09y1", "g1", "g2", "g3", "g10", "g11", "g20", "dend_1", "dend_2", "dend_12", "axon_3", "axon_21",
+GROUP_NAMES = ["g01", "dend_01", "x09y1", "sec7", "sec007", "Dend_1", "dend_1", "G1", "g1", "g2", "g3", "g10", "g11", "g20", "dend_1", "dend_2", "dend_12", "axon_3", "axon_21",
                "soma_group", "axon_group", "dendrite_group", "a", "b", "ab", "B2", "b2x7", "sec-1", "sec_1",
                "x9y1", "x9y10", "x10y2", "7up", "12k", "k", "z"]
 
@@ -611,10 +611,36 @@ def run(ck):
     hists = [copy.deepcopy(h) for h in HISTORY_CORPUS]
     while len(hists) < nh:
         hists.append(gen_history(ck.rng))
-    out = ck.impl("c14_impl.py", {"cases": [strip(c) for c in cases],
+    # id lists for the natsort hypotheses: the group ids of the cases (shuffled) and fixed awkward ones
+    sorts = [["dend_1", "dend_01", "dend_001", "dend_10", "dend_2"], ["sec007", "sec7", "sec07", "sec70"], ["Dend_1", "dend_1", "DEND_1"],
+             ["g1", "g01", "G1", "g10", "g2", "g"], ["x9y10", "x09y1", "x9y1", "x9y01"], [3, 1, 2, 1, 10, 0], []]
+    for c in cases[:ck.n(60, 400)]:
+        l = [g["id"] for g in c["groups"]]
+        ck.rng.shuffle(l)
+        sorts.append(l)
+        if c["segs"]:
+            sorts.append([ck.rng.choice(c["segs"]) for _ in range(ck.rng.randint(1, 8))])
+    out = ck.impl("c14_impl.py", {"sorts": sorts, "cases": [strip(c) for c in cases],
                                   "histories": [{"segs": h["segs"], "groups": h["groups"], "steps": h["steps"]} for h in hists]},
                   timeout=900)
     results, hresults = out["results"], out["histories"]
+
+    # -- the natsort hypotheses on the REAL natsorted (a permutation - equal keys merge nothing - that
+    #    fixes its own output), and the model's sorts against it (both are stable sorts of a list)
+    sterms = []
+    for l, r in zip(sorts, out["sorts"]):
+        if sorted(map(str, r["once"])) != sorted(map(str, l)) or r["twice"] != r["once"]:
+            ck.witness("C14:natsort-hypothesis-fails", "natsorted is not a permutation that fixes its own output on %r" % (l,),
+                       input={"ids": l}, expected="permutation, stable under re-sorting", observed=r)
+        if l and isinstance(l[0], int):
+            sterms.append("listZ_eqb (isortZ %s) %s" % (coq_list([coq_z(x) for x in l]), coq_list([coq_z(x) for x in r["once"]])))
+        else:
+            sterms.append("listS_eqb (natsortS %s) %s" % (coq_list([coq_str(x) for x in l]), coq_list([coq_str(x) for x in r["once"]])))
+    ok, res, sout = ck.coq_eval("Sorts_C14.v", HEADER + "Eval vm_compute in (forallb (fun b => b) %s).\n" % coq_list(sterms)
+                                + "Eval vm_compute in %s.\n" % coq_list(sterms))
+    ck.oblige("Sorts_C14.v:model_sorts_equal_real_natsorted", ok and res and res[0] == "true",
+              detail=(sout[-1200:] if not ok else "per list: %s" % (res[1] if len(res) > 1 else "")), kind="correspondence")
+    ck.extra["natsort_lists_compared"] = len(sorts)
 
     # -- correspondence: Coq does the diff
     matches_v0 = True
